@@ -14,7 +14,7 @@ PANICKY_SUFFIX = {
     "RefCell::borrow": "already mutably borrowed", "RefCell::borrow_mut": "already borrowed",
     "Vec::remove": "index out of bounds", "Vec::insert": "index out of bounds", "Vec::swap_remove": "index out of bounds",
     "Vec::drain": "range out of bounds", "Vec::split_off": "index out of bounds", "Vec::truncate": None,
-    "String::remove": "not a char boundary", "String::insert": "not a char boundary", "String::insert_str": "not a char boundary",
+    "String::truncate": "not a char boundary", "String::remove": "not a char boundary", "String::insert": "not a char boundary", "String::insert_str": "not a char boundary",
     "String::replace_range": "not a char boundary / out of range", "String::split_off": "not a char boundary",
     "String::drain": "not a char boundary", "str::split_at": "not a char boundary",
     "TextRange::new": "assert!(start <= end)", "TextRange::at": "offset overflow",
